@@ -44,9 +44,11 @@ def special_scenarios(ctx):
     from vlib import hist
     done = []
     reps = 2 if ctx.tier == 'quick' else 12
-    for i in range(reps * 4):
+    todo = [(i, ['names', 'resize', 'symlink-root', 'symlink-root-slash'][i % 4], None) for i in range(reps * 4)]
+    todo += [(reps * 4 + j, 'read-fault', (size, k)) for j, (size, k) in enumerate(
+        (size, k) for size in ([1000, 20000] if ctx.tier == 'quick' else [1, 1000, 4096, 20000, 70000]) for k in range(1, 7 if size <= 4096 else 12))]
+    for i, kind, param in todo:
         rng = random.Random(ctx.seed * 100 + i)
-        kind = ['names', 'resize', 'symlink-root', 'symlink-root-slash'][i % 4]
         w = hist.World(ctx, 7000 + i, rng, nitems=1)
         try:
             it = w.items[0]
@@ -66,6 +68,14 @@ def special_scenarios(ctx):
                 how = rng.choice(['truncate:%d' % rng.choice([0, 100, size // 2, size - 1]), 'append:%d' % rng.choice([1, 5000])])
                 when = rng.choice(['lseek@%s@1', 'read@%s@2'])
                 shim_env = {'ACTION': (when % os.path.realpath(victim)) + '=' + how, 'WATCH': os.path.realpath(it)}
+            elif kind == 'read-fault':
+                # one read of a new file fails, in the hashing pass or - once the entry header is already in the
+                # archive - in the archiving pass; files after it in the walk exist
+                victim = os.path.join(it, 'sub', 'victim')
+                size, k = param
+                w.write(victim, 3, size)
+                w.write(os.path.join(it, 'sub', 'zz-after'), 4, 300)
+                shim_env = {'FAULT': 'read@%s=EIO@%d' % (os.path.realpath(victim), k), 'WATCH': os.path.realpath(it)}
             else:
                 link = os.path.join(w.base, 'link-to-item')
                 os.symlink(it, link)
@@ -73,10 +83,10 @@ def special_scenarios(ctx):
             store.write_config(w.cfg, 'b', w.root, [{'path': cfg_path}], 2, 2)
             w.now += 10
             r = store.run_vsb(ctx, ['-c', w.cfg, 'backup', 'b'], now=w.now, shim_env=shim_env)
-            case = {'scenario': kind, 'index': i, 'action': (shim_env or {}).get('ACTION')}
+            case = {'scenario': kind, 'index': i, 'action': (shim_env or {}).get('ACTION') or (shim_env or {}).get('FAULT')}
             bdir = os.path.join(w.root, store.group_name(w.now), store.backup_name(w.now))
             if not os.path.isdir(bdir):
-                if not expect_err and kind != 'resize':
+                if not expect_err and kind not in ('resize', 'read-fault'):
                     ctx.violation('property', 'special scenario %s: nothing published (exit %d, %s)' % (kind, r.rc, r.errors()[:2]), {'case': case})
                 done.append((kind, 'unpublished'))
                 continue
@@ -93,7 +103,7 @@ def special_scenarios(ctx):
                     ctx.violation('property', 'a file whose name contains CR/LF cannot be represented in the line-based manifest, yet the run exits 0', {'case': case})
                 if any('\r' in p or '\n' in p for p in recs):
                     ctx.violation('property', 'a CR/LF path was written into the manifest', {'case': case})
-            if kind != 'resize' and not why:
+            if kind not in ('resize', 'read-fault') and not why:
                 want = {os.path.join(os.path.realpath(it), x) for x in ('ok one', 'sub/ok2', 'sub/dup')}
                 if set(recs) != want and not (kind == 'names' and set(recs) >= want):
                     ctx.violation('property', 'special scenario %s: manifest paths %s differ from the symlink-resolved source paths %s' % (kind, sorted(recs), sorted(want)),
